@@ -922,7 +922,16 @@ func RPool(c *core.Ctx) {
 					continue
 				}
 				// must reach putRunner via defer
-				c.Check(defersCall(fn, putRunner), key, st.Pos(), "selecting the quick program requires a deferred putRunner in the same function (which restores the full program)")
+				okDefer := defersCall(fn, putRunner)
+				if !okDefer {
+					// a helper that switches the program of a runner it was handed: every caller must release it
+					if fa, isFA := st.Addr.(*ssa.FieldAddr); isFA {
+						if _, isParam := fa.X.(*ssa.Parameter); isParam {
+							okDefer = callersAllDefer(p, fn, putRunner, 2)
+						}
+					}
+				}
+				c.Check(okDefer, key, st.Pos(), "selecting the quick program requires a deferred putRunner in the same function — or, for a helper given the runner, in every caller — (which restores the full program)")
 			}
 		}
 	}
@@ -1091,23 +1100,81 @@ func exitBlockOf(fn *ssa.Function) *ssa.BasicBlock {
 // defersCall reports whether fn defers a call to target, directly or inside a
 // deferred closure.
 func defersCall(fn, target *ssa.Function) bool {
+	return defersReach(fn, func(f *ssa.Function) bool { return f == target })
+}
+
+// defersReach: some `defer` of fn runs a function (named, method value or
+// closure) that calls a function accepted by match — directly or through
+// helpers of the module (three levels): `defer re.release(r, buf)` with release
+// calling putRunner is the same release as `defer re.putRunner(r)`.
+func defersReach(fn *ssa.Function, match func(*ssa.Function) bool) bool {
 	for _, b := range fn.Blocks {
 		for _, ins := range b.Instrs {
 			d, ok := ins.(*ssa.Defer)
 			if !ok {
 				continue
 			}
-			if d.Call.StaticCallee() == target {
-				return true
+			if cal := d.Call.StaticCallee(); cal != nil {
+				if match(cal) || reachesCall(cal, match, 3, map[*ssa.Function]bool{}) {
+					return true
+				}
 			}
 			if mc, ok := d.Call.Value.(*ssa.MakeClosure); ok {
-				if cl, ok := mc.Fn.(*ssa.Function); ok && callsFn(cl, target) {
+				if cl, ok := mc.Fn.(*ssa.Function); ok && reachesCall(cl, match, 3, map[*ssa.Function]bool{}) {
 					return true
 				}
 			}
 		}
 	}
 	return false
+}
+
+func reachesCall(fn *ssa.Function, match func(*ssa.Function) bool, depth int, seen map[*ssa.Function]bool) bool {
+	if fn == nil || seen[fn] || depth < 0 {
+		return false
+	}
+	seen[fn] = true
+	for _, b := range fn.Blocks {
+		for _, ins := range b.Instrs {
+			ci, ok := ins.(ssa.CallInstruction)
+			if !ok {
+				continue
+			}
+			cal := ci.Common().StaticCallee()
+			if cal == nil {
+				continue
+			}
+			if match(cal) {
+				return true
+			}
+			if core.InModule(cal) && reachesCall(cal, match, depth-1, seen) {
+				return true
+			}
+		}
+	}
+	return false
+}
+
+// callersAllDefer: fn is a helper working on a runner it was given; the
+// obligation "a deferred putRunner follows" then rests on every caller.
+func callersAllDefer(p *core.Program, fn, target *ssa.Function, depth int) bool {
+	node := p.CallGraph().Nodes[fn]
+	if node == nil || len(node.In) == 0 || depth < 0 {
+		return false
+	}
+	for _, e := range node.In {
+		cf := e.Caller.Func
+		if cf == nil || !core.InModule(cf) {
+			return false
+		}
+		if defersCall(cf, target) {
+			continue
+		}
+		if !callersAllDefer(p, cf, target, depth-1) {
+			return false
+		}
+	}
+	return true
 }
 
 func callsFn(fn, target *ssa.Function) bool {
